@@ -22,7 +22,8 @@ Record test := {
   t_subs : list po;                  (* subTest blocks at the start of the body *)
   t_body : po;                       (* rest of the body *)
   t_td : po;                         (* tearDown *)
-  t_cl : list po                     (* cleanups in registration order (run in reverse) *)
+  t_cl : list po;                    (* cleanups in registration order (run in reverse) *)
+  t_count : nat                      (* countTestCases(): 1 for an ordinary test, more for a composite case *)
 }.
 Record rworld := {
   lw : world;                        (* names, bases, unit layer *)
@@ -178,8 +179,12 @@ Definition apply_pev (l t : nat) (s : rstate) (p : pev) : rstate :=
   | PStop => emit s (hooks_down l ++ [EStop t])
   end.
 
+(* startTest / the addSkip fallback: "testsRun = testsRun - 1 + test.countTestCases()" *)
+Definition add_run (s : rstate) (k : nat) : rstate :=
+  {| rs_run := rs_run s + k; rs_fail := rs_fail s; rs_err := rs_err s; rs_skip := rs_skip s; rs_us := rs_us s;
+     rs_stop := rs_stop s; rs_ev := rs_ev s |}.
 Definition run_test (l t : nat) (b : test) (s : rstate) : rstate :=
-  fold_left (apply_pev l t) (proto b) s.
+  add_run (fold_left (apply_pev l t) (proto b) s) (t_count b - 1).
 
 (* "for test in tests: if result.shouldStop: break; test(result)" *)
 Fixpoint run_seq (l : nat) (ts : list (nat * test)) (s : rstate) : rstate :=
